@@ -96,7 +96,9 @@ fn any_token() -> Box<[u8]> {
 // ------------------------------------------------------------------------------------------
 
 //@ ob: C04.O1
-//@ tier: quick
+//@ rss: 10.5
+//@ time: 994
+//@ tier: thorough
 //@ cap: 2400
 //@ standins: tracing lru vcoll
 //@ also: C03
@@ -201,7 +203,9 @@ fn c04_o1_put_mutable_rules() {
 }
 
 //@ ob: C04.O5
-//@ tier: quick
+//@ rss: 5.8
+//@ time: 761
+//@ tier: thorough
 //@ cap: 2400
 //@ standins: tracing lru vcoll
 //@ also: C03 C11
@@ -326,7 +330,7 @@ fn c04_o6_capacity_one_eviction() {
 // ------------------------------------------------------------------------------------------
 
 //@ ob: C03.O1
-//@ tier: quick
+//@ tier: thorough
 //@ cap: 2400
 //@ standins: tracing lru vcoll
 //@ also: C15
@@ -387,7 +391,7 @@ fn c03_o1_put_immutable() {
 }
 
 //@ ob: C03.O3
-//@ tier: quick
+//@ tier: thorough
 //@ cap: 2400
 //@ standins: tracing lru vcoll
 //@ also: C15
@@ -446,7 +450,7 @@ fn c03_o3_announce_peer() {
 }
 
 //@ ob: C03.O4
-//@ tier: quick
+//@ tier: thorough
 //@ cap: 2400
 //@ standins: tracing lru vcoll
 //@ also: C15
@@ -508,8 +512,10 @@ fn c03_o4_announce_signed_peer() {
 }
 
 //@ ob: C03.O6
+//@ rss: 0.9
+//@ time: 118
 //@ tier: quick
-//@ cap: 2400
+//@ cap: 800
 //@ standins: tracing lru vcoll
 //@ desc: a request vetoed by the configured request filter gets no reply and changes nothing: stores untouched, token secrets not rotated even when rotation is due; the filter is consulted exactly once per request
 //@ bounds: request kind symbolic among ping / get / put_immutable / announce_peer with a valid token; clock symbolic (rotation due or not); unwind 26
@@ -561,7 +567,9 @@ fn h_any(_v: &[u8]) -> [u8; 20] {
 }
 
 //@ ob: C03.O7
-//@ tier: quick
+//@ rss: 3.4
+//@ time: 482
+//@ tier: thorough
 //@ cap: 2400
 //@ standins: tracing lru vcoll
 //@ desc: size boundaries with a valid token: an immutable value of 1001 bytes is refused with 205 and one of 1000 bytes passes the size check; a mutable value of 1001 bytes => 205, salt of 65 bytes => 207, 1000 / 64 pass; refused requests store nothing
